@@ -486,6 +486,19 @@ func c15Directed(c *wk.Ctx) {
 	pairs = append(pairs,
 		pair{"one-of with one object under two keys <- two compatible objects", aliased, split(intT), false},
 		pair{"one-of with one object under two keys <- the second key's object is incompatible", aliased, split(strT), true})
+	// enums of different base kinds whose values coincide once an integer is read as a code point (65 <-> "A")
+	strEnum := func() schema.Type {
+		return schema.NewStringEnumSchema(map[string]*schema.DisplayValue{"A": {}, "B": {}})
+	}
+	intEnum := func() schema.Type {
+		return schema.NewIntEnumSchema(map[int64]*schema.DisplayValue{65: {}, 66: {}}, nil)
+	}
+	pairs = append(pairs,
+		pair{"string enum {A,B} <- int enum {65,66}", strEnum, intEnum, true},
+		pair{"int enum {65,66} <- string enum {A,B}", intEnum, strEnum, true},
+		pair{"string enum {A,B} <- string enum {A,B}", strEnum, strEnum, false},
+		pair{"string <- int enum {65,66}", strT, intEnum, true},
+		pair{"int <- string enum {A,B}", intT, strEnum, true})
 	for _, pr := range pairs {
 		c.Note("ValidateCompatibility directed: " + pr.name)
 		c.Count("pairs")
